@@ -1,13 +1,13 @@
 SPECIFICATION Spec
 CONSTANTS
-  Devs <- DevAll
+  Devs <- DevBoth
   Ops <- AllOps
   ByteStrings <- BytesQuick
   NumSeqs <- NumsQuick
   NewObjs <- MCNewObjs
   MaxDepth = 2
   Starts <- StartsTiny
-  Allowed = {"content.sharedStream", "resources.nameCollision"}
+  Allowed = {}
   Emit = TRUE
   EmitMod = 50
   EmitModV = 1
